@@ -332,6 +332,62 @@ async def sc_tunnel_exit(loop: Any, env: Env) -> None:
     await asyncio.sleep(6.0)
 
 
+async def sc_tunnel_prerelay(loop: Any, env: Env) -> None:
+    """
+    The observed node first serves as the exit of a circuit that is still being extended (the originator uses the
+    partial circuit: legal for a remote originator), then becomes a relay of it; data keeps flowing afterwards.
+    """
+    from ipv8.messaging.anonymization.community import TunnelCommunity
+    allf = {RELAY, EXIT_BT, EXIT_IPV8, SPEED}
+    nodes = [env.node() for _ in range(3)]
+    for nd in nodes:
+        nd.flags = allf
+        ov = nd.add(TunnelCommunity)
+        ov.settings.peer_flags = set(allf)
+    b, a, c = nodes
+    for x in nodes:
+        for y in nodes:
+            if x is not y:
+                know(x, y, 0, sorted(allf))
+    env.target(b, b.overlay)
+    random.seed(11)
+    prefix = a.overlay.get_prefix()
+    held: list = []
+    state = {"created": False}
+
+    def hook(fl):
+        d = fl.data
+        if len(d) < 29 or d[:22] != prefix or d[22] != 0:
+            return None
+        if d[27] != 0:
+            if d[29:30] == b"\x03" and fl.dst == a.address:
+                state["created"] = True
+            return None
+        if fl.origin is a.raw_endpoint and state["created"] and not held and not state.get("released"):
+            held.append(fl)            # the (encrypted) extend: waits until data has exited through the partial circuit
+            return []
+        return None
+    env.net.on_send = hook
+    cpeer = next(p for p in a.overlay.candidates if p.public_key.key_to_bin() == c.key.pub().key_to_bin())
+    circ = a.overlay.create_circuit(2, required_exit=cpeer)
+    await asyncio.sleep(0.3)
+    if circ is not None and circ.hops and held:
+        a.overlay.send_data(circ.hop.address, circ.circuit_id, ("6.6.6.6", 6666), ("0.0.0.0", 0), b"d5:earlye")
+        await asyncio.sleep(0.3)
+    state["released"] = True
+    env.net.on_send = None
+    for fl in held:
+        env.net.inject(fl.src, fl.dst, fl.data, note="extend released")
+    await asyncio.sleep(1.0)
+    if circ is not None and circ.state == "READY":
+        a.overlay.send_data(circ.hop.address, circ.circuit_id, ("6.6.6.7", 6667), ("0.0.0.0", 0), b"d4:latee")
+    await asyncio.sleep(1.0)
+    for t in loop.transports:
+        if t.sent and not t.closed and t.local_addr[0] == "0.0.0.0":
+            t.inject(b"d6:answere", t.sent[0][1])
+    await asyncio.sleep(7.0)
+
+
 async def sc_hidden(loop: Any, env: Env) -> None:
     """
     Hidden services: the observed node seeds a swarm (introduction point, rendezvous, e2e link, data both ways).
@@ -514,6 +570,7 @@ SCENARIOS: dict[str, Callable] = {
     "tunnel": sc_tunnel,
     "tunnel_no6": sc_tunnel,
     "tunnel_exit": sc_tunnel_exit,
+    "tunnel_prerelay": sc_tunnel_prerelay,
     "hidden": sc_hidden,
     "service0": sc_service,
     "service1": sc_service,
@@ -528,7 +585,7 @@ SCENARIOS: dict[str, Callable] = {
 
 
 # scenarios used as traffic corpus by C01 / C03 (the three service variants produce the same kinds of datagrams)
-CORPUS_SCENARIOS = [n for n in SCENARIOS if n not in ("service1", "service2", "service3", "service4", "service5", "tunnel_no6", "tunnel_exit")]
+CORPUS_SCENARIOS = [n for n in SCENARIOS if n not in ("service1", "service2", "service3", "service4", "service5", "tunnel_no6", "tunnel_exit", "tunnel_prerelay")]
 
 
 async def run_scenario(loop: Any, name: str, env: Env | None = None) -> Env:
